@@ -94,6 +94,27 @@ def run_case(c):
     return rec
 
 
+def run_bigtwin(c):
+    """A period-q series of n samples (values t mod q, threshold 1/2): the twins of a state are exactly the states
+    of the same phase further apart than min_dist - a closed form that Val_C15 proves against the definition on
+    the small instances and applies to the large ones (more than 127 / 255 samples and neighbours)."""
+    from pyunicorn.timeseries import RecurrencePlot, Surrogates
+    n, q, md = c["n"], c["q"], c["md"]
+    x = np.arange(n) % q
+    rec = dict(c)
+    o = {"exc": "", "rp_twins": [], "s_twins": []}
+    try:
+        rp = RecurrencePlot(x.astype(float), metric="supremum", threshold=0.5, silence_level=3)
+        o["rp_twins"] = [sorted(int(v) for v in t) for t in rp.twins(min_dist=md)[:n]]
+        s = Surrogates(original_data=x.astype(float).reshape(1, -1), silence_level=3)
+        s.embedding = s.embed_time_series_array(s.original_data, 1, 1)
+        o["s_twins"] = [sorted(int(v) for v in t) for t in s.twins(0.5, min_dist=md)[0]]
+    except Exception as ex:
+        o["exc"] = type(ex).__name__
+    rec["obs"] = o
+    return rec
+
+
 class _Script:
     """Scripted replacement of random.random: the draws of a TwinWalkSM behaviour, in order."""
 
@@ -136,6 +157,8 @@ def run_walk(c):
 
 
 def _nontrivial(rec):
+    if rec["blk"] == "bigtwin":
+        return True
     if rec["blk"] == "walk":
         return len(rec["draws"]) >= 2
     if rec["blk"] == "spec":
@@ -156,6 +179,11 @@ def main(ctx):
         "transition structure.  non-trivial (twin block) = the pattern has at least one twin pair")
     ctx.extra["scope"] = open(os.path.join(os.path.dirname(__file__), "..", "spec", cfg + ".cfg")).read().split()
     recs = ctx.run_cases("props.c15.run_case", cases)
+    # periodic series: small instances (closed form proved against the definition) and large ones
+    big = [{"case": "p%d_%d_%d" % (n, q, md), "blk": "bigtwin", "n": n, "q": q, "md": md}
+           for n in ((6, 9, 12, 140, 300) if ctx.tier == "quick" else (5, 6, 7, 9, 10, 12, 130, 140, 260, 300, 520))
+           for q in (2, 3) for md in (0, 2)]
+    recs += ctx.run_cases("props.c15.run_bigtwin", big)
     ctx.validate("Val_C15", "Val_C15", recs, nontrivial=_nontrivial)
     # ---- the twin walk, choice by choice: behaviours of TwinWalkSM replayed with a scripted random source
     from vlib.core import Machinery
@@ -173,6 +201,11 @@ def main(ctx):
 
 def replay(ctx, rep):
     rec = rep["record"]
+    if rec.get("blk") == "bigtwin":
+        case = {k: v for k, v in rec.items() if k != "obs"}
+        recs = ctx.run_cases("props.c15.run_bigtwin", [case], jobs=1)
+        ctx.validate("Val_C15", "Val_C15", recs, nontrivial=_nontrivial)
+        return
     if rec.get("blk") == "walk":
         case = {k: v for k, v in rec.items() if k != "obs"}
         wrecs = ctx.run_cases("props.c15.run_walk", [case], jobs=1)
